@@ -263,11 +263,14 @@ def enter_failure_releases(prog, rep, rule="handle-discipline"):
         caught = [norm(x) for x in (h.type.elts if isinstance(h.type, _ast.Tuple) else [h.type])] if h.type is not None else ["BaseException"]
         if not any(c_.split(".")[-1] in ("BaseException", "Exception") for c_ in caught):
             return False
-        calls = [norm(c.func) for c in _ast.walk(h) if isinstance(c, _ast.Call)]
+        # what the handler does, private helpers of the class it calls included (one level)
+        scope = [h] + [meths[c.func.attr] for c in _ast.walk(h) if isinstance(c, _ast.Call) and isinstance(c.func, _ast.Attribute) and isinstance(c.func.value, _ast.Name)
+                       and c.func.value.id == "self" and c.func.attr in meths and c.func.attr not in ("__enter__",)]
+        calls = [norm(c.func) for sc in scope for c in _ast.walk(sc) if isinstance(c, _ast.Call)]
         via_exit = any(c_ == "self.__exit__" for c_ in calls)
         closes = via_exit or any(c_.endswith(".close") for c_ in calls)
         resets = via_exit or any(isinstance(a, _ast.Assign) and any(norm(t) == "self._inside_context" for t in a.targets) and isinstance(a.value, _ast.Constant) and a.value.value is False
-                                 for a in _ast.walk(h))
+                                 for sc in scope for a in _ast.walk(sc))
         reraises = bool(h.body) and isinstance(h.body[-1], _ast.Raise) and h.body[-1].exc is None
         return closes and resets and reraises
 
@@ -301,11 +304,51 @@ def enter_failure_releases(prog, rep, rule="handle-discipline"):
                  construct="Tdf.__enter__ failure after open")
 
 
+def _enter_failure_helpers(prog):
+    """Private methods of Tdf that the un-normalised source calls only from an except handler of __enter__ that re-raises: part of
+    __enter__'s failing path (the normal form drops that handler).  They may withdraw access state (mode 'rb', flag False), nothing else."""
+    tree = ast.parse((prog.src / "basictdf.py").read_text())
+    tdf = next((c for c in tree.body if isinstance(c, ast.ClassDef) and c.name == "Tdf"), None)
+    if tdf is None:
+        return set()
+    meths = {m.name: m for m in tdf.body if isinstance(m, ast.FunctionDef)}
+    enter = meths.get("__enter__")
+    if enter is None:
+        return set()
+    in_handler = set()
+    for t in [x for x in ast.walk(enter) if isinstance(x, ast.Try)]:
+        for h in t.handlers:
+            if h.body and isinstance(h.body[-1], ast.Raise) and h.body[-1].exc is None:
+                in_handler |= {id(c) for c in ast.walk(h) if isinstance(c, ast.Call)}
+    out = set()
+    for name, m in meths.items():
+        if not name.startswith("_") or name.startswith("__"):
+            continue
+        sites = []
+        for pth in sorted(prog.src.glob("*.py")):
+            tr = tree if pth.name == "basictdf.py" else ast.parse(pth.read_text())
+            sites += [c for c in ast.walk(tr) if (isinstance(c, ast.Attribute) and c.attr == name) or (isinstance(c, ast.Constant) and c.value == name)]
+        calls = [c for c in ast.walk(tree) if isinstance(c, ast.Call) and isinstance(c.func, ast.Attribute) and c.func.attr == name]
+        if calls and len(calls) == len(sites) and all(id(c) in in_handler for c in calls):
+            stores = [a for a in ast.walk(m) if isinstance(a, (ast.Assign, ast.AugAssign, ast.AnnAssign))]
+            tgs = lambda a: a.targets if isinstance(a, ast.Assign) else [a.target]
+            withdraws = all(all(isinstance(t, ast.Name) for t in tgs(a)) or
+                            (isinstance(a, ast.Assign) and isinstance(a.value, ast.Constant) and all((norm(t), a.value.value) in (("self._mode", "rb"), ("self._inside_context", False)) for t in a.targets))
+                            for a in stores) and not any(isinstance(c, ast.Call) and norm(c.func) in ("setattr", "self.__dict__.update", "vars") for c in ast.walk(m))
+            if withdraws:
+                out.add(name)
+    return out
+
+
 def mode_lifecycle(ct: Container, rep, rule="mode-lifecycle"):
     tdf = ct.tdf
     mod = ct.mod.path.name
     n = 0
+    failure_helpers = _enter_failure_helpers(ct.prog)
     for f in tdf.all_funcs():
+        if f.name in failure_helpers:
+            rep.ok(rule, f"Tdf.{f.name}: called only from __enter__'s re-raising handler; withdraws access state only")
+            continue
         for v, st, cond, is_const in const_stores(f.node, "_mode"):
             n += 1
             allowed = {"__init__": ("rb",), "__exit__": ("rb",), "allow_write": ("r+b",)}
@@ -320,7 +363,7 @@ def mode_lifecycle(ct: Container, rep, rule="mode-lifecycle"):
     for m in ct.prog.modules.values():
         for fnode in [x for x in ast.walk(m.tree) if isinstance(x, ast.FunctionDef)]:
             in_tdf = any(f.node is fnode for f in tdf.all_funcs())
-            if in_tdf and fnode.name in owners:
+            if in_tdf and (fnode.name in owners or fnode.name in failure_helpers):
                 continue
             for x in walk_no_nested(fnode):
                 tg = []
